@@ -102,6 +102,9 @@ def _take_view(flat, rec, view: str, split):
             return flat.reshape(dims)
         rev = flat.reshape(dims[::-1])
         return rev.permute(*range(len(dims) - 1, -1, -1)) if hasattr(rev, "permute") else rev.T
+    elif view == "swapped":
+        # same values, every element stored in the non-native byte order
+        return flat.astype(flat.dtype.newbyteorder(">" if sys.byteorder == "little" else "<")).reshape(dims)
     else:
         piece = flat
     return piece.reshape(dims)
@@ -243,8 +246,25 @@ def build_base(rec, base, dname: str, ints, workdir: str) -> Built:
         _counter[0] += 1
         name = f"x{os.getpid()}_{_counter[0]}.bin"
         path = os.path.join(workdir, name)
-        with open(path, "wb") as f:
-            f.write(file_bytes(rec["file"]))
+        decoy = None
+        if _counter[0] % 2:
+            # history of the PATH (ExtWindow of TensorRepr.tla reads the file that is there NOW): another file used to
+            # be at this path, a tensor that mapped it is still alive and unreleased, and the data file was then
+            # replaced the way data files are replaced (temporary file + os.replace)
+            content = file_bytes(rec["file"])
+            with open(path, "wb") as f:
+                f.write(bytes((b + 0x5B) & 0xFF for b in content) + b"\x5b" * 16)
+            decoy = ir.ExternalTensor(name, 0, None, ir.DataType.UINT8, shape=ir.Shape([len(content) + 16]), name="decoy",
+                                      base_dir=workdir)
+            held = decoy.numpy()          # maps the old file; kept referenced until the case is over
+            tmp = path + ".new"
+            with open(tmp, "wb") as f:
+                f.write(content)
+            os.replace(tmp, path)
+            decoy = (decoy, held)
+        else:
+            with open(path, "wb") as f:
+                f.write(file_bytes(rec["file"]))
         t = ir.ExternalTensor(
             name,
             rec["off"],
@@ -258,6 +278,8 @@ def build_base(rec, base, dname: str, ints, workdir: str) -> Built:
         def cleanup():
             try:
                 t.release()
+                if decoy is not None:
+                    decoy[0].release()
             finally:
                 os.unlink(path)
 
@@ -425,6 +447,9 @@ def _run_one(rec, dname, ints, workdir, fs: Findings):
     try:
         built = build(rec, dname, ints, workdir)
     except Exception as e:  # noqa: BLE001
+        if rec["base"].get("view") == "swapped" and isinstance(e, TypeError):
+            fs.add("refused", "construct", "TypeError", exc=repr(e))   # Refusable(rep): nothing was built, nothing to compare
+            return
         fs.add("violation", "construct", _exc_name(e), exc=repr(e))
         return
     t = built.tensor
